@@ -34,7 +34,7 @@ SEEDS = {
 
  'C01-1': ('/tmp/wt_C01', 1, 'C01', 'a non-CAD trade whose commission currency is explicitly CAD with no commission rate', {'C01': ['R1e']}, 'caught after rule R1e (a named currency is never dropped) was added'),
  'C01-2': ('/tmp/wt_C01', 2, 'C01', 'a sale whose commission exceeds its gross proceeds', {'C01': ['R1f|no-clamping|capital-gain|Sell']}, 'caught after rule R1f (no clamping on the way to a cost base or gain) was added'),
- 'C03-1': ('/tmp/wt_C03', 1, 'C03', 'two buying affiliates, the alphabetically first ending the window with zero shares', {'C03': ['anchor-lost:sfla-construction']}, 'reported as a lost anchor (the generation loop became an iterator chain with take_while); a benign filter-based chain would be reported the same way — known fragility'),
+ 'C03-1': ('/tmp/wt_C03', 1, 'C03', 'two buying affiliates, the alphabetically first ending the window with zero shares', {'C03': ['sfla-row-for-every-affiliate']}, 'first reported as a lost anchor (the generation loop became an iterator chain with take_while); since the rules follow iterator chains (DESIGN 8.7) it is reported as a chain cut by take_while, and a benign filter-based chain is accepted. Earlier note: a benign filter-based chain would be reported the same way — known fragility'),
  'C03-2': ('/tmp/wt_C03', 2, 'C03', 'a passive holder plus an affiliate that buys and sells out at a loss within 30 days', {'C03': ['flag-overwritten']}, 'caught after rule R3f (who may write the over-applied marker) was added'),
  'C15-1': ('/tmp/wt_C15', 1, 'C15', 'a split inside the after-window and an affiliate with zero shares at the split that buys afterwards', {'C15': ['split-factor-recorded-unconditionally']}, 'caught after R15d was strengthened (factor update unconditional)'),
  'C15-2': ('/tmp/wt_C15', 2, 'C15', 'a split between a superficial-loss sale and the repurchase, by an affiliate holding nothing in between', {'C15': ['split-arm-leaves-cost-base-and-gain-untouched'], 'C01': ['cost-base-changed-by-buy-sell-roc-sfla-only']}, ''),
